@@ -87,6 +87,10 @@ func goVal(v string) interface{} {
 		return []interface{}{1}
 	case "map":
 		return map[string]interface{}{"k": 2}
+	case "emap":
+		return map[string]interface{}{}
+	case "earr":
+		return []interface{}{}
 	}
 	panic("unknown value " + v)
 }
@@ -380,6 +384,28 @@ func sharesWith(comp, def string) bool {
 	return false
 }
 
+const stalePrefix = "stale conversion: "
+
+// staleConversion: conversions must not carry process-wide state. Every replay
+// starts from fresh objects, which is only true if an empty Go container still
+// converts to an EMPTY object (a shared singleton that some earlier history
+// wrote into would leak into this one).
+func staleConversion() string {
+	o1, err1 := tengo.FromInterface(map[string]interface{}{})
+	o2, err2 := tengo.FromInterface([]interface{}{})
+	atomic.AddInt64(&apiCalls, 2)
+	if err1 != nil || err2 != nil {
+		return stalePrefix + "an empty container is refused"
+	}
+	if s := val.Snapshot(o1); s != "map{}" {
+		return stalePrefix + "FromInterface(map[string]interface{}{}) = " + clip(s, 120) + ", not an empty map (state left behind by an earlier history)"
+	}
+	if s := val.Snapshot(o2); s != "array[]" {
+		return stalePrefix + "FromInterface([]interface{}{}) = " + clip(s, 120) + ", not an empty array (state left behind by an earlier history)"
+	}
+	return ""
+}
+
 func clip(s string, n int) string {
 	if len(s) > n {
 		return s[:n] + "..."
@@ -390,6 +416,9 @@ func clip(s string, n int) string {
 // replay re-creates the state reached by path (unchecked: every prefix was
 // checked when its state was first discovered).
 func replay(si, capObjs int, path []Op) (*world, *model, string) {
+	if st := staleConversion(); st != "" {
+		return nil, nil, st
+	}
 	w, m := newWorld(si, capObjs), newModel(si, capObjs)
 	for _, op := range path {
 		if onCompiled(op.K) && (op.Obj >= len(w.objs) || op.Obj >= len(m.objs)) {
@@ -438,16 +467,35 @@ func enabledOps(nobj int, vals []string) (mut []Op, ro []Op) {
 // left out for `a[0] = 7` (indexing a map with an int key is a language
 // question decided by C01, not by this property).
 func valsFor(si int, vals []string) []string {
-	if si != 4 {
-		return vals
-	}
-	var v []string
-	for _, x := range vals {
-		if x != "map" {
-			v = append(v, x)
+	switch si {
+	case 4: // a[0] = 7
+		var v []string
+		for _, x := range vals {
+			if x != "map" {
+				v = append(v, x)
+			}
+		}
+		return v
+	case 6: // a.n = 1: the interesting values are maps, above all the EMPTY map
+		switch len(vals) {
+		case 2:
+			return []string{"nil", "emap"}
+		case 4:
+			return []string{"nil", "emap", "map", "arr"}
+		default:
+			return []string{"nil", "1", "emap", "map", "arr"}
+		}
+	case 7: // splice(a, 0, 0, 7): arrays, above all the EMPTY array
+		switch len(vals) {
+		case 2:
+			return []string{"nil", "earr"}
+		case 4:
+			return []string{"nil", "1", "earr", "arr"}
+		default:
+			return []string{"nil", "1", "s", "earr", "arr"}
 		}
 	}
-	return v
+	return vals
 }
 
 // opTable: every operation of the alphabet gets a small id, so that the
@@ -458,7 +506,7 @@ var (
 )
 
 func initOps() {
-	mut, ro := enabledOps(3, []string{"nil", "1", "s", "arr", "map"})
+	mut, ro := enabledOps(3, []string{"nil", "1", "s", "arr", "map", "emap", "earr"})
 	for _, op := range append(mut, ro...) {
 		if _, ok := opID[op]; !ok {
 			opID[op] = uint16(len(opTable))
@@ -579,7 +627,7 @@ func explore(r *report.Run, maxDepth, capObjs int, alphabet []string, deadlineSe
 					w, m, bad := replay(si, capObjs, path)
 					atomic.AddInt64(&evaluations, 1)
 					if bad != "" {
-						r.Internal("replay of [%s] failed: %s", pathString(path), bad)
+						replayFailed(r, si, capObjs, path, bad)
 						continue
 					}
 					fails, obs, canon := stepChecked(w, m, op, path)
@@ -591,7 +639,7 @@ func explore(r *report.Run, maxDepth, capObjs int, alphabet []string, deadlineSe
 					w, m, bad := replay(si, capObjs, path)
 					atomic.AddInt64(&evaluations, 1)
 					if bad != "" {
-						r.Internal("replay of [%s] failed: %s", pathString(path), bad)
+						replayFailed(r, si, capObjs, path, bad)
 					} else {
 						for _, op := range ro {
 							fails, obs, canon := stepChecked(w, m, op, path)
@@ -652,6 +700,19 @@ func explore(r *report.Run, maxDepth, capObjs int, alphabet []string, deadlineSe
 	return st
 }
 
+func replayFailed(r *report.Run, si, capObjs int, path []Op, bad string) {
+	if strings.HasPrefix(bad, stalePrefix) {
+		kind := "map-string-interface"
+		if strings.Contains(bad, "[]interface{}") {
+			kind = "slice-interface"
+		}
+		r.Violation("convert/from/"+kind+"/process-wide-state", bad,
+			Case{Part: "history", Script: scripts[si].Src, Cap: capObjs, Path: path, Text: pathString(path)})
+		return
+	}
+	r.Internal("replay of [%s] failed: %s", pathString(path), bad)
+}
+
 // outcomeClass abstracts an observation for the vacuity guard.
 func outcomeClass(obs string) string {
 	switch {
@@ -676,6 +737,9 @@ func runHistoryCase(c Case) ([]fail, string) {
 	capObjs := c.Cap
 	if capObjs == 0 {
 		capObjs = 2
+	}
+	if st := staleConversion(); st != "" {
+		return []fail{{"convert/from/map-string-interface/process-wide-state", st}}, ""
 	}
 	w, m := newWorld(si, capObjs), newModel(si, capObjs)
 	var sb strings.Builder
